@@ -215,7 +215,9 @@ def mk_conv(name, D, L, sgn, T, direction):
                   desc="static_cast<%s>(wide_integer<%d,%s%s>)" % (T, D, "s" if sgn else "u", L[1:]), tags={"op": "to", "D": D, "L": L, "sgn": sgn})
 
 
-def mk_mul(name, D, L, sgn, opn="mul"):
+def mk_mul(name, D, L, sgn, opn="mul", shape=None):
+    """shape (division only): (significant limbs of the dividend, of the divisor) - restricts the operands to one
+    size class so that the path-wise exploration of Knuth's algorithm D stays small"""
     n = limbs_of(D, L, sgn)
     lw = bits(L)
     W = n * lw
@@ -233,7 +235,14 @@ def mk_mul(name, D, L, sgn, opn="mul"):
     def pre(env):
         if opn == "mul":
             return True
-        return X.ne(val(env.a["b"]), 0)
+        c = [X.ne(val(env.a["b"]), 0)]
+        if shape is not None:
+            for nm, k_ in (("a", shape[0]), ("b", shape[1])):
+                xs = env.a[nm]
+                c.append(X.ne(xs[k_ - 1], 0))
+                for j in range(k_, n):
+                    c.append(X.eq(xs[j], 0))
+        return X.And(*c)
 
     def claims(env, path):
         if path.kind != "RET":
@@ -255,7 +264,7 @@ def mk_mul(name, D, L, sgn, opn="mul"):
             exp = A % B
         return [("two's-complement-result", X.eq(R, exp))]
     return Kernel(name, args, "i32", body, mode="int", W=None, pre=pre, claims=claims, unwind=6 * n + 24, max_paths=40000, timeout=240,
-                  desc="wide_integer<%d,%s%s> %s (%d limbs)" % (D, "s" if sgn else "u", L[1:], o, n),
+                  desc="wide_integer<%d,%s%s> %s (%d limbs)%s" % (D, "s" if sgn else "u", L[1:], o, n, (" operands with %d/%d significant limbs" % shape) if shape else ""),
                   tags={"op": opn, "D": D, "L": L, "sgn": sgn, "limbs": n})
 
 
@@ -279,6 +288,12 @@ def kernels(opts):
             ks.append(mk_conv("K%d" % len(ks), D, L, sgn, rng.choice(["i64", "u32", "u8", "u64"]), "to"))
             if limbs_of(D, L, sgn) <= (4 if tier == "quick" else 5):
                 ks.append(mk_mul("K%d" % len(ks), D, L, sgn, "mul"))
-            if tier != "quick" and limbs_of(D, L, sgn) <= 3:
-                ks.append(mk_mul("K%d" % len(ks), D, L, sgn, "div"))
+            if limbs_of(D, L, sgn) <= 3 and not sgn:
+                # multi-limb divisors take Knuth's algorithm D (single-limb divisors use a separate short routine)
+                ks.append(mk_mul("K%d" % len(ks), D, L, sgn, "div", shape=(3, 2)))
+                if tier != "quick":
+                    ks.append(mk_mul("K%d" % len(ks), D, L, sgn, "div", shape=(3, 3)))
+                    ks.append(mk_mul("K%d" % len(ks), D, L, sgn, "div", shape=(2, 2)))
+                    ks.append(mk_mul("K%d" % len(ks), D, L, sgn, "rem", shape=(3, 2)))
+                    ks.append(mk_mul("K%d" % len(ks), D, L, sgn, "div", shape=(3, 1)))
     return ks
